@@ -21,6 +21,7 @@ func checkC13(c *fw.Ctx) {
 	c.NotDecidedClause("tamper detection as such (cryptography, C02)")
 	// the origin named in the header must be a valid server name: the validator's port rule
 	checkPortParse(c, "4 verify")
+	checkLenientAcceptors(c, "4 verify", "spec.ParseAndValidateServerName")
 	pkg := c.P.Pkg("fclient")
 	// 1. same struct on both sides
 	_, frst := fw.StructFieldNames(pkg, "FederationRequest")
